@@ -249,6 +249,10 @@ struct Spec {
     light: bool,         // long request: fewer repeats in thorough
 }
 
+const MISS_AT_12: [&str; 12] = [
+    "miss-at:12@0", "miss-at:12@1", "miss-at:12@2", "miss-at:12@3", "miss-at:12@4", "miss-at:12@5", "miss-at:12@6", "miss-at:12@7", "miss-at:12@8", "miss-at:12@9", "miss-at:12@10", "miss-at:12@11",
+];
+
 const SMALL_SHAPES: [&str; 20] = [
     "empty", "single", "single-missing", "dup:2", "dup:17", "alt2:40", "pairs:40", "few3:64", "all", "rev", "shuffled", "first:39", "cycle:41", "spellings", "miss-first:40", "miss-middle:40",
     "miss-last:40", "miss-every:12", "miss-alt:40", "miss-dup:40",
@@ -274,6 +278,14 @@ fn plan(thorough: bool) -> Vec<Spec> {
     for shape in SMALL_SHAPES {
         for skip in [false, true] {
             for &t in &all_threads {
+                v.push(Spec { api: Api::Ewc, fix: "S", threads: t, bat: Bat::NA, shape, skip, light: false });
+            }
+        }
+    }
+    // a never-added name at every position in turn (12-name request)
+    for shape in MISS_AT_12 {
+        for skip in [false, true] {
+            for t in some_threads(1) {
                 v.push(Spec { api: Api::Ewc, fix: "S", threads: t, bat: Bat::NA, shape, skip, light: false });
             }
         }
@@ -306,13 +318,31 @@ fn plan(thorough: bool) -> Vec<Spec> {
     for bat in [Bat::F(10), Bat::F(1)] {
         v.push(Spec { api: Api::Ewc, fix: "M", threads: 0, bat, shape: "all", skip: true, light: true });
     }
+    // batched path: a never-added name on either side of the first and the last batch boundary (batch 10, 1001 names)
+    for shape in ["miss-at:1001@9", "miss-at:1001@10", "miss-at:1001@11", "miss-at:1001@989", "miss-at:1001@990", "miss-at:1001@999", "miss-at:1001@1000"] {
+        for skip in [false, true] {
+            for t in some_threads(1) {
+                v.push(Spec { api: Api::Ewc, fix: "M", threads: t, bat: Bat::F(10), shape, skip, light: true });
+            }
+        }
+    }
+    // extract_files_batched: a never-added name at every position in turn, batch 5 over 12 names
+    for shape in MISS_AT_12 {
+        for t in some_threads(1) {
+            v.push(Spec { api: Api::Efb, fix: "S", threads: t, bat: Bat::F(5), shape, skip: false, light: false });
+        }
+    }
     if thorough {
-        for shape in ["all", "first:5001", "miss-middle:5200", "miss-last:5200"] {
+        // the 5200-file archive: every batch size x skip_errors, three of the six thread counts per combination (rotating)
+        let mut r3 = 0usize;
+        for shape in ["all", "first:5001", "miss-middle:5200"] {
             for bat in BATCHES {
                 for skip in [false, true] {
-                    for t in THREADS {
-                        v.push(Spec { api: Api::Ewc, fix: "L", threads: t, bat, shape, skip, light: true });
+                    for _ in 0..3 {
+                        v.push(Spec { api: Api::Ewc, fix: "L", threads: THREADS[r3 % THREADS.len()], bat, shape, skip, light: true });
+                        r3 += 1;
                     }
+                    r3 += 1; // shift the window so that all thread counts meet all batch sizes
                 }
             }
         }
@@ -395,9 +425,13 @@ fn alt_case(s: &str, upper: bool) -> String {
 
 /// The request list of a single-archive case. `missing` = positions deliberately filled with never-added names.
 fn build_request(shape: &str, fx: &Fix, rng: &mut Rng) -> Vec<String> {
-    let (kind, n) = match shape.split_once(':') {
-        Some((k, n)) => (k, n.parse::<usize>().unwrap_or(0)),
-        None => (shape, 0),
+    // "kind", "kind:N" or "kind:N@K" (K = a position)
+    let (kind, n, at) = match shape.split_once(':') {
+        Some((k, rest)) => match rest.split_once('@') {
+            Some((n, a)) => (k, n.parse::<usize>().unwrap_or(0), a.parse::<usize>().unwrap_or(0)),
+            None => (k, rest.parse::<usize>().unwrap_or(0), 0),
+        },
+        None => (shape, 0, 0),
     };
     let names = &fx.names;
     let mut shuffled: Vec<String> = names.clone();
@@ -446,6 +480,12 @@ fn build_request(shape: &str, fx: &Fix, rng: &mut Rng) -> Vec<String> {
             v
         }
         "miss-every" => (0..n).map(|i| missing_name(1000 + i % 7)).collect(),
+        // one never-added name at exactly position K of an N-name request
+        "miss-at" => {
+            let mut v = take(&shuffled, n);
+            v[at.min(n - 1)] = missing_name(5);
+            v
+        }
         _ => panic!("harness: unknown request shape {shape}"),
     }
 }
@@ -1117,6 +1157,7 @@ fn main() {
     let thorough = run.args.thorough();
     let repeats: usize = run.args.get("repeats").and_then(|s| s.parse().ok()).unwrap_or(if thorough { 25 } else { 3 });
     let repeats_light: usize = run.args.get("repeats-light").and_then(|s| s.parse().ok()).unwrap_or(if thorough { 8 } else { 3 });
+    let repeats_heavy: usize = run.args.get("repeats-heavy").and_then(|s| s.parse().ok()).unwrap_or(if thorough { 4 } else { 3 });
     let stride: u64 = run.args.get("stride").and_then(|s| s.parse().ok()).unwrap_or(1).max(1);
     let nstress: usize = run.args.get("stress").and_then(|s| s.parse().ok()).unwrap_or(4);
     let dir = PathBuf::from(&run.args.scratch);
@@ -1163,8 +1204,8 @@ fn main() {
         let missing_pos: Vec<usize> = pr.req.iter().enumerate().filter(|(_, n)| n.starts_with(MISSING_PREFIX)).map(|(i, _)| i).take(6).collect();
         let desc = json!({"interface": sp.api.name(), "path": pr.path, "archive_or_list": sp.fix, "threads": sp.threads, "batch": sp.bat.label(), "shape": sp.shape, "skip_errors": sp.skip,
             "request_len": pr.req.len(), "request_head": pr.req.iter().take(4).collect::<Vec<_>>(), "missing_positions_head": missing_pos, "asked_of_each_archive": pr.ask,
-            "repeats": if sp.light { repeats_light } else { repeats }});
-        let r = if sp.light { repeats_light } else { repeats };
+            "repeats": if pr.req.len() > 5000 { repeats_heavy } else if sp.light { repeats_light } else { repeats }});
+        let r = if pr.req.len() > 5000 { repeats_heavy } else if sp.light { repeats_light } else { repeats };
         run.case(idx, &class, desc, |c| {
             let t = std::time::Instant::now();
             exec(c, sp, &pr, &mut fixes, &mut rng, r, &mut st);
